@@ -64,21 +64,29 @@ def case_marginal(R, D, diag, full, hist=False):
     return Case(label, fn)
 
 
-def case_linear_sum(R, D, K, has_b, diag, hist=False):
-    label = f"linear_sum/R{R}/D{D}/K{K}/b{int(has_b)}/diag{int(diag)}" + ("/hist" if hist else "")
+def case_linear_sum(R, D, K, has_b, diag, hist=False, far=0.0):
+    """far > 0: mean and offset of that magnitude (the covariance of W x + b does not depend on them: no digits may be lost)"""
+    label = f"linear_sum/R{R}/D{D}/K{K}/b{int(has_b)}/diag{int(diag)}" + ("/hist" if hist else "") + (f"/far{far:g}" if far else "")
     def fn(m):
         rng = gen.rng_path(m.seed, label)
         fails = []
-        p = mk_pdf(m, rng, R, D, diag=diag)
+        p = mk_pdf(m, rng, R, D, diag=diag, scale=(far if far else 1.0))
         if hist:
             mutate_pdf(m, rng, p, diag=diag)
         # full row rank with bounded condition number
         W = np.stack([(gen.orth(rng, D)[:K] * rng.uniform(0.5, 2.0, (K, 1))) for _ in range(R)])
-        b = rng.standard_normal((R, K)) if has_b else None
-        params = dict(R=R, D=D, K=K, has_b=has_b)
+        b = (far if far else 1.0) * rng.standard_normal((R, K)) if has_b else None
+        params = dict(R=R, D=D, K=K, has_b=has_b, far=far)
         ls = m.linear_sum(p.reg, W, b)
         if m.regs.get(ls) is None:
             fails.append(failure(PROPERTY, "get_density_of_linear_sum", f"raised: {m.impl[-1][1:]}", params=params)); return fails
+        Sref = np.stack([W[r] @ p.Sigma[r] @ W[r].T for r in range(R)])
+        fail_if(fails, PROPERTY, "get_density_of_linear_sum:Sigma", "covariance != W Sigma W'", np.asarray(m.regs[ls].Sigma), Sref, params=params, tol=1e-9)
+        fail_if(fails, PROPERTY, "get_density_of_linear_sum:mu", "mean != W mu + b", np.asarray(m.regs[ls].mu),
+                np.stack([W[r] @ p.mu[r] + (b[r] if has_b else 0) for r in range(R)]), params=params, tol=1e-12)
+        fail_if(fails, PROPERTY, "get_density_of_linear_sum:Lambda", "Lambda is not the inverse of W Sigma W'", np.asarray(m.regs[ls].Lambda), np.linalg.inv(Sref), params=params, tol=1e-8)
+        if far:
+            return fails          # (density values at such points are dominated by the cancellation inside any natural-parameter form)
         y = gen.points(rng, 3, K); yr = m.arr(y)
         ev = np.asarray(m.regs[m.evalln(ls, yr)])
         exp = np.stack([normal_logpdf(y, W[r] @ p.mu[r] + (b[r] if has_b else 0), W[r] @ p.Sigma[r] @ W[r].T) for r in range(R)])
@@ -99,6 +107,7 @@ def cases(seed, tier):
         K = int(rng.integers(1, D + 1))
         out.append(case_linear_sum(R, D, K, bool(i % 2), bool((i // 2) % 2)))
         out.append(case_linear_sum(R, D, D, bool((i + 1) % 2), False))
+    out.append(case_linear_sum(2, 3, 2, True, False, far=1e5)); out.append(case_linear_sum(1, 2, 2, False, True, far=3e4))
     for (R, D, dg) in [(2, 3, False), (3, 2, True)] + ([(2, 4, False), (1, 3, True)] if tier != "quick" else []):
         out.append(case_marginal(R, D, dg, False, hist=True))
         out.append(case_linear_sum(R, D, max(1, D - 1), True, dg, hist=True))
